@@ -170,6 +170,9 @@ func TestVerifReplay(t *testing.T) {
 					fmt.Printf("  deviated: %%s\n", verifDeviationReason())
 				}
 			}
+			if !followed {
+				fmt.Printf("  last attempt: %%s\n", verifDeviationReason())
+			}
 			verifSchedReset(nil, false)
 			if !followed {
 				failures, skipped = nil, false
